@@ -86,6 +86,9 @@ type fromItem struct {
 	table qname
 	sub   *selectStmt
 	alias string
+	// (values (e, …), (e, …)) as alias(col, …)
+	values   [][]expr
+	colNames []string
 }
 
 type cte struct {
@@ -738,11 +741,30 @@ func (p *parser) selectStmt() *selectStmt {
 	if p.kw("from") {
 		fi := &fromItem{}
 		if p.op("(") {
-			fi.sub = p.selectStmt()
-			p.expectOp(")")
-			fi.alias = p.optAlias()
-			if fi.alias == "" {
-				p.fail("subquery in FROM must have an alias")
+			if p.kw("values") {
+				for {
+					p.expectOp("(")
+					fi.values = append(fi.values, p.exprList())
+					p.expectOp(")")
+					if !p.op(",") {
+						break
+					}
+				}
+				p.expectOp(")")
+				fi.alias = p.optAlias()
+				if fi.alias == "" {
+					p.fail("VALUES in FROM must have an alias")
+				}
+				if p.isOp("(") {
+					fi.colNames = p.identList()
+				}
+			} else {
+				fi.sub = p.selectStmt()
+				p.expectOp(")")
+				fi.alias = p.optAlias()
+				if fi.alias == "" {
+					p.fail("subquery in FROM must have an alias")
+				}
 			}
 		} else {
 			p.kw("only")
